@@ -279,7 +279,10 @@ impl Request {
         }
 
         let content_length = match self.headers.get_raw(RequestHeader::ContentLength) {
-            Some(v) => unsafe {v.as_bytes()}.into_iter().fold(0, |len, b| 10*len + (*b - b'0') as usize),
+            /* digits only and no wrap-around: anything else is a malformed request */
+            Some(v) => unsafe {v.as_bytes()}.into_iter().try_fold(0usize, |len, b| b.is_ascii_digit()
+                .then(|| len.checked_mul(10)?.checked_add((*b - b'0') as usize)).flatten()
+            ).ok_or_else(Response::BadRequest)?,
             None    => 0,
         };
         match content_length {
